@@ -659,11 +659,12 @@ func (c *Client) Request(ctx context.Context, payload kmip.OperationPayload) (km
 // it must not name another operation, and a successful item must carry the response payload of the
 // requested operation.
 func checkResponseItem(req kmip.OperationPayload, bi *kmip.ResponseBatchItem) error {
+	if bi.ResultStatus != kmip.ResultStatusSuccess {
+		// Surfaced by the item's Err() with the server's status, reason and message.
+		return nil
+	}
 	if bi.Operation != 0 && bi.Operation != req.Operation() {
 		return fmt.Errorf("Unexpected operation %q in response to %q", ttlv.EnumStr(bi.Operation), ttlv.EnumStr(req.Operation()))
-	}
-	if bi.ResultStatus != kmip.ResultStatusSuccess {
-		return nil
 	}
 	if bi.ResponsePayload == nil {
 		return fmt.Errorf("Missing payload in response to %q", ttlv.EnumStr(req.Operation()))
